@@ -30,8 +30,14 @@ for _p in sorted(glob.glob(os.path.join(os.path.dirname(os.path.abspath(__file__
     else:
         # Part file checks.d/<ID>.<part>.py: ID, TESTS, optional ASSUMPTIONS;
         # merged into the property's main file (which must exist).
+        _g["_part"] = os.path.basename(_p).split(".")[1]
         _parts.append(_g)
+# A part file <ID>.<part>.py is merged only once the lead has accepted it (token "<ID>.<part>" in
+# claimed.txt), or when VERIF_ALL_PARTS=1 (used by the agents that are still developing a part).
+_claimed = set(open(os.path.join(os.path.dirname(os.path.abspath(__file__)), "claimed.txt")).read().split())
 for _g in _parts:
+    if _g["ID"] + "." + _g["_part"] not in _claimed and os.environ.get("VERIF_ALL_PARTS") != "1":
+        continue
     if _g["ID"] in CHECKS:
         CHECKS[_g["ID"]]["tests"].extend(_g["TESTS"])
         CHECKS[_g["ID"]].setdefault("assumptions", []).extend(_g.get("ASSUMPTIONS", []))
